@@ -556,12 +556,13 @@ func (t *RaftTransaction) ListPage(ctx context.Context, prefix string, after str
 
 		// Before we add this entry, see if there's any updates to add instead.
 		lastKey := ""
-		if len(keys) > 0 {
+		haveLastKey := len(keys) > 0
+		if haveLastKey {
 			lastKey = keys[len(keys)-1]
 		}
 		var mergedEntries []string
 		for updateEntry := range updates {
-			if updateEntry < entry && updateEntry > lastKey {
+			if updateEntry < entry && (!haveLastKey || updateEntry > lastKey) {
 				mergedEntries = append(mergedEntries, updateEntry)
 				delete(updates, updateEntry)
 			}
@@ -590,12 +591,13 @@ func (t *RaftTransaction) ListPage(ctx context.Context, prefix string, after str
 	// handles the case when there were no on-disk entries, or when there
 	// were too few and subsequent entries were added here.
 	lastKey := ""
-	if len(keys) > 0 {
+	haveLastKey := len(keys) > 0
+	if haveLastKey {
 		lastKey = keys[len(keys)-1]
 	}
 	var mergedEntries []string
 	for updateEntry := range updates {
-		if updateEntry > lastKey {
+		if !haveLastKey || updateEntry > lastKey {
 			mergedEntries = append(mergedEntries, updateEntry)
 			delete(updates, updateEntry)
 		}
